@@ -1,6 +1,6 @@
 ----------------------------- MODULE NpmResolve -----------------------------
-(* The npm resolver of util/resolve/npm as a state machine, for universes without aliases and      *)
-(* without bundled (derived) packages:                                                              *)
+(* The npm resolver of util/resolve/npm as a state machine, for universes without bundled (derived)  *)
+(* packages; aliases (npm:pkg@range installed under another directory name) are modelled:           *)
 (*   Pop      - take the node on top of the stack (depth-first in declaration order), skip it if     *)
 (*              processed, otherwise read its regular imports                                         *)
 (*   Declare  - process ONE import of the current node: walk up the install tree for a directory      *)
@@ -15,9 +15,11 @@
 EXTENDS NpmModel, TLC
 VARIABLES U, tree, stack, gnodes, gedges, cur, imps, di, ins, phase
 nrvars == <<U, tree, stack, gnodes, gedges, cur, imps, di, ins, phase>>
-\* tree : Seq([name, v, parent, processed, prot : SUBSET names, gid]) ; index 1 = root ; a directory's entries are the tree
-\* nodes whose parent it is (one per package name)
-Kid(t, x, name) == IF \E k \in 1..Len(t) : t[k].parent = x /\ t[k].name = name THEN CHOOSE k \in 1..Len(t) : t[k].parent = x /\ t[k].name = name ELSE 0
+\* tree : Seq([name, v, parent, processed, prot : SUBSET entry names, gid, slot, aliased]) ; index 1 = root ; a directory's
+\* entries are the tree nodes whose parent it is; an entry sits under its slot = the alias when installed under one, the
+\* package name otherwise (children and alias maps of the code share one namespace of directory names)
+Kid(t, x, entry) == IF \E k \in 1..Len(t) : t[k].parent = x /\ t[k].slot = entry THEN CHOOSE k \in 1..Len(t) : t[k].parent = x /\ t[k].slot = entry ELSE 0
+Entry(d) == IF d.alias # "" THEN d.alias ELSE d.name
 \* regularImports: dev and peer are not resolved; a regular declaration is dropped when the package is also optional; a
 \* bundleDependencies entry counts only when the package is not also a regular dependency
 RegularImports(deps) ==
@@ -34,7 +36,7 @@ ProtectUp(t, x, name) == IF x = 0 \/ Kid(t, x, name) # 0 THEN t ELSE ProtectUp([
 RECURSIVE Hoist(_, _, _)
 Hoist(t, x, name) == IF t[x].parent = 0 \/ Kid(t, t[x].parent, name) # 0 \/ name \in t[t[x].parent].prot THEN [t |-> t, at |-> x]
                      ELSE Hoist([t EXCEPT ![x].prot = @ \cup {name}], t[x].parent, name)
-MkE(f, t, d, sel) == [f |-> f, t |-> t, r |-> d.r, kind |-> d.kind, sel |-> sel, alias |-> ""]
+MkE(f, t, d, sel) == [f |-> f, t |-> t, r |-> d.r, kind |-> d.kind, sel |-> sel, alias |-> d.alias]
 AddErr(gn, n, d) == [gn EXCEPT ![n].errs = Append(@, [name |-> d.name, r |-> d.r])]
 
 Pop == /\ phase = "pop" /\ stack # <<>>
@@ -47,26 +49,34 @@ Pop == /\ phase = "pop" /\ stack # <<>>
 Declare ==
   /\ phase = "declare" /\ di <= Len(imps)
   /\ LET d == imps[di]
+         en == Entry(d)
          sat == {e \in VersOfPkg(U, d.name) : SatRec(d.r, e)}
-         up == FindUp(tree, cur, d.name)
-         reuse == up.dir # 0 /\ ((\E e \in sat : e.v = tree[up.kid].v) \/ d.r = StarReq)
+         up == FindUp(tree, cur, en)
+         \* found through the package's own name and not installed under an alias: same package, the version must be one of
+         \* the matching versions (or the range is "*"); otherwise only the directory name is known and the range is matched
+         \* against the version string found there, whatever package it belongs to
+         unaliased == up.dir # 0 /\ d.alias = "" /\ ~tree[up.kid].aliased
+         reuse == up.dir # 0 /\ (IF unaliased THEN (\E e \in sat : e.v = tree[up.kid].v) \/ d.r = StarReq
+                                  ELSE NR[d.r].range /\ NSat[d.r][tree[up.kid].v])
          gcur == tree[cur].gid
-     IN IF reuse THEN
+     IN IF up.dir # 0 /\ ~unaliased /\ ~NR[d.r].range THEN           \* a dist-tag cannot be matched against a directory: the code gives up
+             phase' = "fatal" /\ UNCHANGED <<U, tree, stack, gnodes, gedges, cur, imps, di, ins>>
+        ELSE IF reuse THEN
              /\ ins' = (IF tree[up.kid].processed THEN ins ELSE Append(ins, up.kid))
-             /\ tree' = ProtectUp(tree, cur, d.name)
+             /\ tree' = ProtectUp(tree, cur, en)
              /\ gedges' = Append(gedges, MkE(gcur, tree[up.kid].gid, d, FALSE))
              /\ di' = di + 1 /\ UNCHANGED <<U, stack, gnodes, cur, imps, phase>>
         ELSE IF sat = {} THEN
              /\ gnodes' = AddErr(gnodes, gcur, d) /\ di' = di + 1 /\ UNCHANGED <<U, tree, stack, gedges, cur, imps, ins, phase>>
-        ELSE IF Kid(tree, cur, d.name) # 0 THEN                       \* this directory already holds another version of the package
+        ELSE IF Kid(tree, cur, en) # 0 THEN                            \* this directory already holds another entry of that name
              /\ gnodes' = AddErr(gnodes, gcur, d) /\ di' = di + 1 /\ UNCHANGED <<U, tree, stack, gedges, cur, imps, ins, phase>>
-        ELSE LET h == Hoist(tree, cur, d.name) IN
+        ELSE LET h == Hoist(tree, cur, en) IN
              IF tree[h.at].parent # 0 /\ tree[h.at].name = d.name THEN   \* would sit inside a directory of the same package: unreachable
                   /\ gnodes' = AddErr(gnodes, gcur, d) /\ tree' = h.t /\ di' = di + 1 /\ UNCHANGED <<U, stack, gedges, cur, imps, ins, phase>>
              ELSE LET pick == ExpectedPick(U, d.name, d.r)
                       gid == Len(gnodes) + 1
                       idx == Len(tree) + 1
-                  IN /\ tree' = Append(h.t, [name |-> d.name, v |-> pick, parent |-> h.at, processed |-> FALSE, prot |-> {}, gid |-> gid])
+                  IN /\ tree' = Append(h.t, [name |-> d.name, v |-> pick, parent |-> h.at, processed |-> FALSE, prot |-> {}, gid |-> gid, slot |-> en, aliased |-> (d.alias # "")])
                      /\ gnodes' = Append(gnodes, [name |-> d.name, v |-> pick, errs |-> <<>>])
                      /\ gedges' = Append(gedges, MkE(gcur, gid, d, TRUE))
                      /\ ins' = Append(ins, idx) /\ di' = di + 1 /\ UNCHANGED <<U, stack, cur, imps, phase>>
@@ -75,18 +85,19 @@ EndNode == /\ phase = "declare" /\ di > Len(imps)
            /\ phase' = "pop" /\ UNCHANGED <<U, tree, gnodes, gedges, cur, imps, di, ins>>
 Finish == /\ phase = "pop" /\ stack = <<>> /\ phase' = "done" /\ UNCHANGED <<U, tree, stack, gnodes, gedges, cur, imps, di, ins>>
 NRNext == Pop \/ Declare \/ EndNode \/ Finish
-NRInit(u, root) == /\ U = u /\ tree = <<[name |-> root.name, v |-> root.v, parent |-> 0, processed |-> FALSE, prot |-> {}, gid |-> 1]>>
+NRInit(u, root) == /\ U = u /\ tree = <<[name |-> root.name, v |-> root.v, parent |-> 0, processed |-> FALSE, prot |-> {}, gid |-> 1, slot |-> root.name, aliased |-> FALSE]>>
                    /\ stack = <<1>> /\ gnodes = <<[name |-> root.name, v |-> root.v, errs |-> <<>>]>> /\ gedges = <<>>
                    /\ cur = 0 /\ imps = <<>> /\ di = 0 /\ ins = <<>> /\ phase = "pop"
 
 (* ---- what the design guarantees ---- *)
 NGraph == [nodes |-> gnodes, edges |-> gedges]
 \* the install tree in the form NpmModel judges: kids by name
-NTree == [x \in 1..Len(tree) |-> [gid |-> tree[x].gid, name |-> tree[x].name, v |-> tree[x].v, parent |-> tree[x].parent,
-                                  kids |-> LET ks == {k \in 1..Len(tree) : tree[k].parent = x} IN [i \in 1..Cardinality(ks) |-> LET k == SetToSeq(ks)[i] IN [name |-> tree[k].name, idx |-> k]],
-                                  akids |-> <<>>]]
+KidSeq(x, al) == LET ks == {k \in 1..Len(tree) : tree[k].parent = x /\ tree[k].aliased = al} sq == SetToSeq(ks) IN [i \in 1..Len(sq) |-> [name |-> tree[sq[i]].slot, idx |-> sq[i]]]
+NTree == [x \in 1..Len(tree) |-> [gid |-> tree[x].gid, name |-> tree[x].name, v |-> tree[x].v, parent |-> tree[x].parent, kids |-> KidSeq(x, FALSE), akids |-> KidSeq(x, TRUE)]]
 \* one entry per name in every directory, at every step
-OneNamePerDirectory == \A x, y \in 1..Len(tree) : (x # y /\ tree[x].parent = tree[y].parent /\ tree[x].parent # 0) => tree[x].name # tree[y].name
+OneNamePerDirectory == \A x, y \in 1..Len(tree) : (x # y /\ tree[x].parent = tree[y].parent /\ tree[x].parent # 0) => tree[x].slot # tree[y].slot
 \* every graph the algorithm returns is a valid, loadable installation (all clauses of C06)
 DoneValid == phase = "done" => NpmViolations(U, NGraph, NTree) = {}
+\* stated separately for the alias-free part of a family (see NpmResolveMC): with aliases npm's own directory-name matching
+\* can bind a requirement to a directory that holds another package
 =============================================================================
